@@ -48,6 +48,9 @@ def mutants(prog):
         ("generic: non-rigid position", "deepali.spatial.generic", "GenericSpatialTransform.__init__", "if affine_first(config.transform):", "if not affine_first(config.transform):", "T67.generic"),
         ("generic: rotation order dropped", "deepali.spatial.generic", "GenericSpatialTransform.__init__", "kwargs['order'] = config.rotation_model", "pass", "T67.generic"),
         ("generic: affine_first looks at the head", "deepali.spatial.generic", "affine_first", "return components[-1] == 'Affine'", "return components[0] == 'Affine'", "T67.generic"),
+        ("nonrigid disp: no axes conversion", B, "SpatialTransform.disp", "flow = flow.axes(Axes.from_grid(grid))", "flow = flow", "T67.nonrigid-disp"),
+        ("nonrigid disp: no resampling", B, "SpatialTransform.disp", "flow = flow.sample(grid)", "flow = flow", "T67.nonrigid-disp"),
+        ("warp_points drops convention", "deepali.core.flow", "warp_points", "sample_flow(flow, coords, align_corners=align_corners)", "sample_flow(flow, coords)", "T67.nonrigid-points"),
         ("pointset: input axes", T, "PointSetTransformer.forward", "points = self._grid.transform_points(points, axes=self._axes,", "points = self._grid.transform_points(points, axes=self._to_axes,", "T67.pointset"),
     ]
     for name, mod, fn, old, new, expect in specs:
